@@ -131,6 +131,7 @@ func genC02(c *Ctx) {
 	// histories on one caching hasher over chains at the depth limit (c02b.go)
 	genC02Chains(c)
 	genC02OneShot(c) // one-shot entry points, writes, failing calls (c02_r8.go)
+	genC02SourceIntact(c) // proof-building steps leave their source tree as it was (c02_r8b.go)
 	n := c.Scale(700, 12000)
 	for i := 0; i < n; i++ {
 		size := 1 + r.Intn(14)
